@@ -130,8 +130,19 @@ func mutateLeaf(r *rand.Rand, v gen.Val) gen.Val {
 	case "name":
 		return gen.Name(v.S + "x")
 	case "time":
+		// the mirror image across the epoch, and the same sub-second part in the neighbouring second: distinct
+		// instants that print alike if the printer mishandles the sign of the sub-second part
+		switch x := r.Intn(4); {
+		case x == 0 && v.N != 0 && v.N != math.MinInt64:
+			return gen.TimeV(-v.N)
+		case x == 1 && v.N%1_000_000_000 != 0 && v.N > math.MinInt64+2_000_000_000 && v.N < math.MaxInt64-2_000_000_000:
+			return gen.TimeV(v.N - 2*(v.N%1_000_000_000))
+		}
 		return gen.TimeV(v.N + 1)
 	case "dur":
+		if r.Intn(4) == 0 && v.N != 0 && v.N != math.MinInt64 {
+			return gen.Dur(-v.N)
+		}
 		return gen.Dur(v.N + 1)
 	case "list":
 		return gen.ListV(append(append([]gen.Val{}, v.Kids...), gen.Num(0))...)
